@@ -819,6 +819,13 @@ def c16(ctx):
         ctx.tlc("TransformGen", tf_cfg(tmode, ctx.seed % 13), capture=f, workers=4, timeout=2400)
         args = ["transform", "-in", f]
         ctx.absorb(ctx.vh_run(args, timeout=3000), args, label="transform/" + tmode)
+    # walking transforms over random graphs and selectors beyond the bounds (the cases of vh walk-gen, evaluated by TLC)
+    cases = os.path.join(ctx.scratch, "wg-tf.ndjson")
+    ctx.vh_run(["walk-gen", "-n", "2500" if ctx.tier == "quick" else "20000", "-seed", str(ctx.seed * 1000 + 99), "-out", cases])
+    f = os.path.join(ctx.scratch, "tf-walkfile.ndjson")
+    ctx.tlc("TransformGen", tf_cfg("walkfile"), capture=f, workers=4, trace_file=cases, timeout=2400)
+    args = ["transform", "-in", f]
+    ctx.absorb(ctx.vh_run(args, timeout=3000), args, label="transform/walk-random")
     return ctx.finish(
         "model_checking",
         rule="cases = 9 graphs x every target path (every existing path up to depth 3 incl. through links; new map keys; "
